@@ -1,5 +1,48 @@
-import PwVerif.Model.Pool
+import PwVerif.Lemmas.Pool
+/-!
+# C08 — Pool failure reports are sound
+
+Same model and configuration as C07 (`Plain`: retry on, results returned, no `enqueue_fn`).
+-/
 namespace PwVerif.C08
 open PwVerif.Pool
-theorem placeholder : True := trivial
+
+/-- **partial results are genuine.** Whatever the outcome, the results collected so far contain every
+    input at most as often as it was given - in particular `PoolError.partial_results`. -/
+theorem C08_partial_genuine (c : Cfg) (hc : Plain c) (pick : List Nat → Option Nat) (hp : PickOK pick)
+    (n : Nat) (src : List Inp) (pre evs : List Ev) (i : Inp) :
+    (runEvents c pick (start c pick n src pre) evs).ret.count i ≤ src.count i := by
+  have := (inv_runEvents hc hp evs _ (inv_start hc hp n src pre)).cons i
+  simp only [cnt] at this
+  omega
+
+theorem C08_poolerror_partial (c : Cfg) (hc : Plain c) (pick : List Nat → Option Nat) (hp : PickOK pick)
+    (n : Nat) (src : List Inp) (pre evs : List Ev) (part : List Inp)
+    (h : outcome (runEvents c pick (start c pick n src pre) evs) = .poolError part) :
+    ∀ i, part.count i ≤ src.count i := by
+  intro i
+  have hg := C08_partial_genuine c hc pick hp n src pre evs i
+  generalize runEvents c pick (start c pick n src pre) evs = s at h hg
+  unfold outcome at h
+  split at h
+  · cases h
+  · split at h
+    · cases h
+    · split at h
+      · cases h
+      · simp only [Outcome.poolError.injEq] at h
+        subst h; exact hg
+
+/-- when the run stops although inputs are left (PoolError), nothing is pending any more: every worker
+    that was handed work has answered or has been declared dead -/
+theorem C08_stops_only_when_idle_or_all_closed (s : St) (h : running s = false) :
+    s.pending = 0 ∨ ∀ x ∈ s.ws, x.closed = true := by
+  simp only [running, Bool.and_eq_false_iff, List.any_eq_false] at h
+  rcases h with h | h
+  · left; simpa using h
+  · right; intro x hx; simpa using h x hx
+
+example : outcome (runEvents {} pickFirst (start {} pickFirst 1 [1, 2]) [.die 0 true, .poll [0]]) = .poolError [] := by
+  decide +kernel
+
 end PwVerif.C08
